@@ -241,7 +241,16 @@ func cmdRace(in string) error {
 				}
 			}(g)
 		}
-		wg.Wait()
+		// every operation of an atomic container returns: with all goroutines started, the run ends (milliseconds); an operation
+		// that never returns cannot be placed in any sequential witness
+		fin := make(chan struct{})
+		go func() { wg.Wait(); close(fin) }()
+		select {
+		case <-fin:
+			out["hung"] = false
+		case <-time.After(30 * time.Second):
+			out["hung"] = true
+		}
 		out["incoherent"] = atomic.LoadInt64(&incoherent)
 	default:
 		return fmt.Errorf("unknown race scenario kind %q", sc.Kind)
